@@ -19,6 +19,8 @@ func init() {
 }
 
 func runC07(c *Ctx) {
+	c.Rule("R9", "a node recovering by state transfer is sent every batch it lacks: the leader-side filter refuses gaps and skips exactly what the follower has (finite order model)", 2)
+	fsmValidate(c, "R9")
 	c.Rule("R1", "applyAdd: one atomic batch (tree mutations + applied index), metadata, publish-after-write, failures abort", 6)
 	c.Rule("R2", "single writer: the FSM's Mutate is the only store write of the node", 1)
 	c.Rule("R3", "RocksDBStore.Mutate: one batch, log data first, every mutation put into its own table, one Write", 1)
@@ -386,5 +388,19 @@ func rebuildOnOpen(c *Ctx, rule string) {
 			app = true
 		}
 	})
+	// ... on every path: the rebuild is also run on a warm tree (after a state transfer or a restored
+	// backup replaced the store under it); a way out of RebuildCache that does not read the tile table
+	// leaves the upper levels describing the old store
+	rr := p.RegionOf(rebuild, 2)
+	readsTiles := func(in ssa.Instruction) bool {
+		cc := callCommon(in)
+		return cc != nil && cc.IsInvoke() && cc.Method.Name() == "GetAll"
+	}
+	escR := rr.EscapesWithoutDeep(readsTiles, mustOpts{})
+	posR := rebuild.Pos()
+	if escR != nil {
+		posR = escR.Pos()
+	}
+	c.Check(escR == nil, rule, funcName(rebuild)+":always-reads", posR, "every path through RebuildCache reads the persisted tiles", "RebuildCache can return without reading the persisted tiles (an early way out): when it is run on a tree that already holds data — after a state transfer or a restore replaced the store — the in-memory levels keep describing the old store")
 	c.Check(put && app, rule, funcName(rebuild)+":replay", rebuild.Pos(), "every tile read is put into the cache (key ↦ value of the same tile) and its index collected", fmt.Sprintf("cache warm-up: tiles put into the cache=%v, indexes collected=%v", put, app))
 }
